@@ -417,6 +417,83 @@ func runC11(r *Run) {
 			"FormBinding.Bind does not decide on the media type itself: `Content-Type: multipart/form-data` without a (usable) boundary is read as url-encoded, nothing is bound and no error is reported — the handler gets 200 with an untouched destination instead of 400")
 	})
 
+	r.rule("R13", "a struct applied twice replaces, under the key it writes: in SetValWithStruct the key handed to Del (which clears what an earlier application left) is the very value handed to the setter — tag or field name, whichever was chosen; with Del(field.Name) beside set(tag) a tagged slice field sent twice arrives as old + new elements (E5: one key, two uses)", func() {
+		f := r.Fn("client", "SetValWithStruct")
+		var dels []ssa.Value
+		var sets []ssa.Value
+		for _, c := range callsIn(f, false) {
+			if c.Common.IsInvoke() && c.Common.Method.Name() == "Del" && len(c.Common.Args) == 1 {
+				dels = append(dels, c.Common.Args[0])
+			}
+			// the setter: a local closure or a function of the package that is handed (…, name string, val reflect.Value)
+			if g := staticCalleeOf(c.Common); g != nil && g.Pkg == f.Pkg && c.Instr.Parent() == f {
+				var name ssa.Value
+				for _, a := range c.Common.Args {
+					if bt, ok := a.Type().Underlying().(*types.Basic); ok && bt.Info()&types.IsString != 0 {
+						name = a
+					}
+					if strings.HasSuffix(a.Type().String(), "reflect.Value") && name != nil {
+						sets = append(sets, name)
+						break
+					}
+				}
+			}
+		}
+		r.need(len(dels) >= 1 && len(sets) >= 1, "SetValWithStruct deletes a key and sets it through a setter that is handed (name, value)")
+		okSame := true
+		for _, d := range dels {
+			found := false
+			for _, s := range sets {
+				if stripValue(d) == stripValue(s) {
+					found = true
+				}
+			}
+			if !found {
+				okSame = false
+			}
+		}
+		r.check(okSame, "SetValWithStruct:deleted-key-is-the-written-key", r.fpos(f), "Del and the setter are handed the same key value",
+			"SetValWithStruct clears one key and writes another (the field's Go name beside its tag): for a field tagged `param:\"tags\"` the earlier values under `tags` stay — the same Request filled twice sends old + new elements, the server binds a slice the client never encoded")
+	})
+
+	r.rule("R14", "every configured query parameter is sent, the empty ones too: the visitors parserRequestURL hands to the client's and the request's parameter sets add each pair to the query on every path — an empty value is a value (`names=&names=x` binds {\"\", \"x\"}; an empty request-level parameter replaces a client-level one on the server side) (E1 must-pass-through in the visitor)", func() {
+		f := r.Fn("client", "parserRequestURL")
+		n := 0
+		seen := map[*ssa.Function]bool{}
+		for _, c := range callsIn(f, false) {
+			if !strings.HasSuffix(c.Name, "fasthttp.Args).VisitAll") && !strings.HasSuffix(c.Name, ".VisitAll") {
+				continue
+			}
+			var g *ssa.Function
+			for _, a := range c.Common.Args {
+				switch x := a.(type) {
+				case *ssa.MakeClosure:
+					g, _ = x.Fn.(*ssa.Function)
+				case *ssa.Function:
+					g = x
+				}
+			}
+			if g == nil || len(g.Params) != 2 {
+				continue
+			}
+			if _, isBytes := g.Params[0].Type().Underlying().(*types.Slice); !isBytes {
+				continue // the path-parameter visitor (strings) is C18-R11's
+			}
+			n++
+			if seen[g] {
+				continue
+			}
+			seen[g] = true
+			isAdd := func(in ssa.Instruction) bool {
+				return isCallTo(in, func(s string) bool { return strings.Contains(s, "fasthttp.Args).Add") || strings.Contains(s, "fasthttp.Args).Set") })
+			}
+			path, hit := reach(entryOf(g), isReturn, nil, isAdd)
+			r.check(hit == nil, "parserRequestURL:"+short(g.String())+":adds-every-pair", r.fpos(g), "the visitor adds the pair on every path",
+				"a query-parameter visitor can return without adding the pair ("+pathString(r.P, path)+"): parameters with an empty value are dropped — []string{\"a\",\"\",\"b\"} arrives as {\"a\",\"b\"}, and an empty request-level value no longer overrides the client-level one")
+		}
+		r.atLeast("query-parameter visitors in parserRequestURL", n, 2)
+	})
+
 	r.rule("R12", "the default decoders zero what the client sent empty: the package initialiser builds the decoder pools from a ParserConfig in which ZeroEmpty and IgnoreUnknownKeys are set to true — without ZeroEmpty an empty value (`title=`, an empty element of a slice) leaves the destination as it was instead of binding the empty string the client encoded (E8: the defaults the round trip relies on)", func() {
 		ini := r.P.Func("binder", "init#1")
 		r.need(ini != nil, "binder has an init body")
